@@ -67,6 +67,9 @@ pub enum Op {
     FutReady(usize),
     FutDrop(usize),
     Lookup(SimLookup),
+    /// several lookups at once: the first on the caller's thread, the others on their own
+    /// threads sharing `&store` (lookup, shard_stats and clear take `&self`)
+    ParLookup(Vec<SimLookup>),
     FindUsable,
     Clear,
     Stats,
@@ -103,6 +106,7 @@ impl Op {
             Op::FutReady(_) => "future_is_ready",
             Op::FutDrop(_) => "future_drop",
             Op::Lookup(_) => "lookup",
+            Op::ParLookup(_) => "lookup_concurrent",
             Op::FindUsable => "find_usable",
             Op::Clear => "clear",
             Op::Stats => "shard_stats",
@@ -396,6 +400,21 @@ pub fn gen_case(seed: u64, o: &GenOpts) -> StoreCase {
                     ops.push(Op::FindUsable)
                 }
                 6 => ops.push(Op::Clear),
+                9 => {
+                    // concurrent readers; the queries are a fixed function of the position so
+                    // that no generator randomness is consumed
+                    let n = ops.len();
+                    let all = [
+                        SimLookup::All,
+                        SimLookup::GroupIs((n % 4) as u8),
+                        SimLookup::HasClass((n % 3) as u64),
+                        SimLookup::CounterAtLeast(1),
+                        SimLookup::HistoryLonger(0),
+                    ];
+                    let k = 2 + n % 3;
+                    unresolved = 0;
+                    ops.push(Op::ParLookup((0..k).map(|j| all[(n + j) % all.len()].clone()).collect()))
+                }
                 _ => ops.push(Op::Stats),
             }
         }
